@@ -1,7 +1,7 @@
 (* C10 — Syncing reaches quiescence: no echo uploads, no write amplification. Property theorems only. *)
 From LS Require Import Base.Bytes Base.Res Header.Model Merge.Model Merge.Version Shadow.Model
   Strategy.Model Strategy.Order Strategy.Proofs
-  Instance.Model Instance.Proofs Instance.ShadowNoop Instance.SyncLoop Instance.Ids Instance.IdsProofs Instance.IdsQuiesce Instance.StepShapes Instance.LoopQuiet.
+  Instance.Model Instance.Proofs Instance.ShadowNoop Instance.SyncLoop Instance.Ids Instance.IdsProofs Instance.IdsQuiesce Instance.StepShapes Instance.LoopQuiet Instance.FleetQuiet.
 Open Scope N_scope.
 
 (* merging a snapshot that contains nothing newer than the local data commits NO LMDB transaction
@@ -103,6 +103,37 @@ Proof.
     eapply q_step; [exact (s_store_ok false (mkSt 5 3 0 3 [5] (Storing 5 5)) 5 5 eq_refl)|reflexivity|].
     apply q_nil.
   - reflexivity.
+Qed.
+
+(* the fleet-level form, as a theorem: n instances, each in its own mode, interleaved in ANY order (the loads
+   of Ids.step accept any snapshot, so the uploads of one instance reaching the others are already among every
+   instance's own steps). Without application commits the whole fleet completes at most 2n further uploads from
+   ANY combination of loop states, and not a single one once every instance is idle: no feedback loop between
+   instances *)
+Theorem C10_fleet_bounded_uploads : forall (mode : nat -> bool) f k f',
+  fquiet mode f k f' -> (k <= 2 * length f)%nat.
+Proof. exact fleet_quiet_bounded. Qed.
+Print Assumptions C10_fleet_bounded_uploads.
+Theorem C10_fleet_idle_forever : forall (mode : nat -> bool) f k f',
+  all_idle f -> fquiet mode f k f' -> k = 0%nat.
+Proof. exact fleet_idle_forever. Qed.
+Print Assumptions C10_fleet_idle_forever.
+(* non-vacuity: a native instance with a pending change next to an idle shadow-mode instance: one upload *)
+Example C10_fleet_example :
+  exists k f', fquiet (fun i => Nat.eqb i 1) [mkSt 5 3 0 3 [5] Top; mkSt 7 7 0 7 [7] Top] k f' /\ k = 1%nat
+               /\ all_idle f'.
+Proof.
+  eexists. eexists. split; [|split].
+  - eapply (fq_step _ _ 0%nat); [reflexivity|exact (s_check_send false (mkSt 5 3 0 3 [5] Top) eq_refl ltac:(cbn; lia))|reflexivity|].
+    cbn [upd_nth].
+    eapply (fq_step _ _ 0%nat); [reflexivity|exact (s_send_txn false (mkSt 5 3 0 3 [5] SendBegin) false eq_refl)|reflexivity|].
+    cbn [upd_nth].
+    eapply (fq_step _ _ 0%nat); [reflexivity|exact (s_send_info false (mkSt 5 3 0 3 [5] (SendInfo 5 5 5)) 5 5 5 eq_refl)|reflexivity|].
+    cbn [upd_nth].
+    eapply (fq_step _ _ 0%nat); [reflexivity|exact (s_store_ok false (mkSt 5 3 0 3 [5] (Storing 5 5)) 5 5 eq_refl)|reflexivity|].
+    cbn [upd_nth]. apply fq_nil.
+  - reflexivity.
+  - repeat constructor; cbn; lia.
 Qed.
 
 (* the same one level down, on the EXECUTABLE loop machine that is replayed against the real syncLoop, with
